@@ -194,7 +194,7 @@ theorem s8_regression :
 example : Sorted warmLast.sorted ∧ ValidRanges [⟨[97], [98]⟩, ⟨[117], []⟩] ∧
     ([⟨[97], [98]⟩, ⟨[117], []⟩] : List KeyRange).length ≤ 16 * limitPerBatch := by
   refine ⟨?_, ⟨by decide, by decide, Or.inl rfl⟩, by decide⟩
-  have : warmLast.sorted = [⟨⟨3, [116], none, 1, 0⟩, true, false, 1, [1, 2, 3]⟩] := rfl
+  have : warmLast.sorted = [⟨⟨3, [116], none, 1, 0⟩, true, false, 1, [1, 2, 3], false⟩] := rfl
   rw [this]; simp [Sorted]
 
 /-! ## no regression -/
@@ -238,7 +238,7 @@ theorem no_regression (c c' : Cache) (n : Entry) (ok : Bool) (hwf : n.r.wf)
         | none => simp
         | some x => simp [hend] at hwf; simp [hwf]
 
-example : (⟨⟨2, [103], some [116], 2, 0⟩, true, false, 1, [1]⟩ : Entry).r.wf := by simp [Region.wf]; decide
+example : (⟨⟨2, [103], some [116], 2, 0⟩, true, false, 1, [1], false⟩ : Entry).r.wf := by simp [Region.wf]; decide
 
 /-! ## grouping -/
 
@@ -280,8 +280,8 @@ theorem reachable_cache_wf (ops : List Op) : CacheWF (ops.foldl applyOp Cache.em
     earlier survives the insert of a newer region inside it -/
 theorem overlap_reachable : ∃ c : Cache, Reachable c ∧ ∃ a ∈ c.sorted, ∃ b ∈ c.sorted, a ≠ b ∧
     a.r.contains [110] = true ∧ b.r.contains [110] = true := by
-  let a : Entry := ⟨⟨1, [97], some [122], 1, 0⟩, true, false, 1, [1]⟩
-  let b : Entry := ⟨⟨2, [109], some [122], 2, 0⟩, true, false, 1, [1]⟩
+  let a : Entry := ⟨⟨1, [97], some [122], 1, 0⟩, true, false, 1, [1], false⟩
+  let b : Entry := ⟨⟨2, [109], some [122], 2, 0⟩, true, false, 1, [1], false⟩
   refine ⟨(insertRegionToCache (insertRegionToCache Cache.empty a).1 b).1,
     Reachable.insert b (Reachable.insert a Reachable.empty), a, ?_, b, ?_, ?_, ?_, ?_⟩
   · decide
@@ -364,8 +364,8 @@ theorem insert_evicts_exactly (c c' : Cache) (n : Entry) (hwf : n.r.wf)
           rw [this] at hin; cases hin
 
 /-- non-vacuity: a successful insert with a well-formed region -/
-example : (⟨⟨2, [103], some [116], 2, 0⟩, true, false, 1, [1]⟩ : Entry).r.wf ∧
-    (insertRegionToCache Cache.empty ⟨⟨2, [103], some [116], 2, 0⟩, true, false, 1, [1]⟩).2 = true := by
+example : (⟨⟨2, [103], some [116], 2, 0⟩, true, false, 1, [1], false⟩ : Entry).r.wf ∧
+    (insertRegionToCache Cache.empty ⟨⟨2, [103], some [116], 2, 0⟩, true, false, 1, [1], false⟩).2 = true := by
   refine ⟨by simp [Region.wf]; decide, rfl⟩
 
 /-! ## convergence once the topology is quiet
@@ -412,7 +412,7 @@ theorem converges_when_quiet_keys (c : Cache) (pd : PD) (keys : List Bytes) (fb 
 /-- non-vacuity: a two-region layout is quiet, the empty cache and a cache holding the stale unsplit region satisfy the
     invariant, and the stale cache really needs one rejected attempt -/
 example : QuietPD pd2 ∧ ConvInv Cache.empty pd2 ∧
-    (attempts 3 (insertRegionToCache Cache.empty ⟨⟨1, [], none, 0, 0⟩, true, false, 1, [1, 2, 3]⟩).1 pd2 [104]
+    (attempts 3 (insertRegionToCache Cache.empty ⟨⟨1, [], none, 0, 0⟩, true, false, 1, [1, 2, 3], false⟩).1 pd2 [104]
       Feedback.invalidate 0).2 = some 1 := by
   refine ⟨⟨?_, ?_, ?_, ?_⟩, ⟨by simp [Cache.empty, Sorted], ?_⟩, rfl⟩
   · intro k
